@@ -85,6 +85,22 @@ def chunks {β : Type} (n : Nat) : Nat → List β → List (List β)
   | 0, _ => []
   | m + 1, l => l.take n :: chunks n m (l.drop n)
 
+partial def parseTree : List String → Option (ScTree × List String)
+  | "L" :: i :: r => some (.leaf (pN i), r)
+  | "N" :: k :: r =>
+      let rec go : Nat → List String → Option (List ScTree × List String)
+        | 0, r => some ([], r)
+        | n + 1, r => do
+            let (c, r) ← parseTree r
+            let (cs, r) ← go n r
+            pure (c :: cs, r)
+      do let (cs, r) ← go (pN k) r; pure (.node cs, r)
+  | _ => none
+
+def pairsSF : List String → List (String × Float)
+  | a :: b :: r => (a, pF b) :: pairsSF r
+  | _ => []
+
 def step (line : String) : String :=
   match (line.trimAscii.toString.splitOn " ").filter (· ≠ "") with
   -- C19 ---------------------------------------------------------------
@@ -223,6 +239,23 @@ def step (line : String) : String :=
   | "superpose" :: m :: n :: fs =>
       let per := 6 * pN n
       sFs (flatCV3 (superpose ((chunks per (pN m) (fs.map pF)).map cv3s)))
+  | "subset" :: nx :: ny :: sx :: sy :: z :: ns :: rest =>
+      let sel := (rest.take (pN ns)).map pN
+      let data := (rest.drop (pN ns)).map pF
+      let sub := makeSubset (pN nx) (pN ny) (pF sx) (pF sy) (pF z) data sel
+      sFs (sub.vals ++ flat3 sub.pts ++ sub.origDims.flatMap (·.2))
+  | "components" :: toks =>
+      match parseTree toks with
+      | some (t, []) => " ".intercalate (t.components.map toString)
+      | _ => "bad-op"
+  | "selectparam" :: illum :: "plain" :: [v] =>
+      match (ParamVal.plain (pF v)).select illum with
+      | .plain x => "plain " ++ sF x
+      | .perChannel _ => "perchannel"
+  | "selectparam" :: illum :: "dict" :: kvs =>
+      match (ParamVal.perChannel (pairsSF kvs)).select illum with
+      | .plain x => "plain " ++ sF x
+      | .perChannel _ => "perchannel"
   | ["incfield", ex, ey, phi] => let r := incfield (pF ex) (pF ey) (pF phi); sFs [r.1, r.2]
   | ["fieldstocart", a, b, c, d, th, ph] =>
       let r := fieldstocart (⟨pF a, pF b⟩ : Cx Float) ⟨pF c, pF d⟩ (pF th) (pF ph); sFs (flatCx [r.1, r.2.1, r.2.2])
